@@ -17,8 +17,9 @@
    case   = 9001, per endpoint (A then B): c_s c_a c_n c_c c_max, nsteps, steps,
             nconnections, per Connection in creation order: nhints, hints
    step   = 0 x tag len | 1 x id tag len | 2 x id | 3 x id | 4 x budget | 5 x budget | 6 x | 7 x | 8 x
-            | 9 x w r | 10 | 11 x
-            [Sync, AsyncStart, AsyncPoll, AsyncDrop, Conn, Handle, Open, Close, Cmd, Gate, Kill, CmdFail]
+            | 9 x w r | 10 | 11 x | 12 x k tag len
+            [Sync, AsyncStart, AsyncPoll, AsyncDrop, Conn, Handle, Open, Close, Cmd, Gate, Kill, CmdFail,
+             SinkSync: send_sync_notification on a clone of the sink of stream k, without the handle]
             budget of a Conn step: 0..128, or 1000000 = polled under tokio::task::unconstrained
    trace  = 2, then per step: result, dump
    result = code, or for Handle: 0 | 1 k | 2 | 3 from per mode tag len
@@ -27,6 +28,7 @@
 From Coq Require Import List NArith Bool.
 From V.common Require Import Wire.
 From V.C12 Require Import Model.
+From V.C12 Require Start StartGlue.
 Import ListNotations.
 Open Scope N_scope.
 
@@ -287,6 +289,7 @@ Definition p_step : parser step :=
   | 9 => let* x := pBool in let* w := pBool in let* r := pBool in pret (SGate x w r)
   | 10 => pret SKill
   | 11 => let* x := pBool in pret (SCmdFail x)
+  | 12 => let* x := pBool in let* k := pN in let* t := pN in let* l := pN in pret (SSinkSync x k t l)
   | _ => pfail
   end.
 
@@ -296,6 +299,7 @@ Definition p_ecfg : parser ecfg :=
 Definition wf_step (t : step) : bool :=
   match t with
   | SSync _ t l | SAsyncStart _ _ t l => wf_size t l
+  | SSinkSync _ k t l => wf_size t l && (k <=? 255)
   | SHandle _ b => b <=? 128
   | SConn _ b => (b <=? 128) || (b =? BIG)
   | _ => true
@@ -336,7 +340,10 @@ Fixpoint srun_trace (c : cfg) (s : st) (ts : list step) : list N :=
   | t :: r => let '(s1, v) := do_step c s t in enc_res v ++ sdump c s1 ++ srun_trace c s1 r
   end.
 
+Definition is_start (l : list N) : bool := match l with m :: _ => m =? StartGlue.MARK | [] => false end.
+
 Definition run_case (l : list N) : list N :=
+  if is_start l then StartGlue.run_start l else
   match decode_sched l with
   | Some (c, ts, hs) => 2 :: srun_trace c (init hs) ts
   | None =>
@@ -416,6 +423,17 @@ Definition so_step (c : cfg) (o : sost) (t : step) (v : res) (d : sdump_t) : sos
         | Some _, 1 | Some _, 2 => o
         | None, 3 => o
         | _, _ => set_uv o x u false
+        end
+    | SSinkSync x k tg l, RCode z =>
+        (* accepted (the stream of the sink is the one the notification belongs to), or refused at once: a full
+           queue, or a stream that has ended / never existed for this endpoint *)
+        let u := uv o x in
+        match z with
+        | 0 => set_uv o x (mkU (u_sink u) (u_acc u ++ [mkN x k true tg l]) (u_pend u) (u_del u) (u_maxper u)
+                              (u_cmds u) (u_fcp u)) (sd_alive d x && (k =? so_cp o x))
+        | 1 => set_uv o x u (sd_alive d x && (k =? so_cp o x) && (sd_sfree d x =? 0))
+        | 2 => set_uv o x u (negb (sd_alive d x) || negb (k =? so_cp o x))
+        | _ => set_uv o x u false
         end
     | SAsyncStart x id tg l, RCode z =>
         let u := uv o x in
@@ -502,6 +520,7 @@ Definition count_open (ts : list step) : N :=
 Definition empty_u : uview := mkU None [] [] [] 0 0 0.
 
 Definition prop_ok (case trace : list N) : bool :=
+  if is_start case then StartGlue.prop_start case trace else
   match decode_sched case with
   | Some (c, ts, _) =>
       match trace with
